@@ -220,7 +220,18 @@ def _const_key(o):
         return ("bm", id(o.__self__), o.__name__)
     if isinstance(o, (pytypes.MethodDescriptorType, pytypes.WrapperDescriptorType, pytypes.ClassMethodDescriptorType)):
         return ("md", id(o.__objclass__), o.__name__)
+    if type(o).__module__ in ("typing", "types", "typing_extensions") and not isinstance(o, (type, pytypes.ModuleType, pytypes.FunctionType)):
+        # type hints (typing aliases, types.GenericAlias / UnionType) are values: `typing.Optional[int]` evaluated
+        # twice may or may not be the same object (typing caches them in a bounded LRU), so key them by equality
+        try:
+            rep = _HINT_CANON.setdefault(o, o)
+            return ("i", id(rep))
+        except TypeError:
+            pass
     return ("i", id(o))
+
+
+_HINT_CANON = {}
 
 
 def _const_eq(a, b):
